@@ -218,7 +218,12 @@ class LtlAstParserVisitor(LtlParserVisitor):
         return node
 
     def visitExprLiteral(self, ctx):
-        val = float(ctx.literal().getText())
+        text = ctx.literal().getText()
+        try:
+            val = float(text)
+        except ValueError:
+            # hexadecimal, binary or underscored integer literal
+            val = float(int(text.replace('_', ''), 0))
         node = Constant(val)
         self.phi_name_to_node_dict[node.name] = node
         return node
